@@ -374,6 +374,17 @@ def requiredOwn (a : AtenSchema) (s : OsSig) : Bool :=
   s.zipIdx.all (fun pj => !pj.1.required ||
     (match a.positional[pj.2]? with | some arg => !arg.hasDefault | none => true))
 
+/-- Why a row is outside `bindsOkK`. -/
+inductive KReason
+  | ruleFails | posName | requiredOwn | dupNames
+  deriving DecidableEq, Repr
+
+def kReasons (m : Mode) (a : AtenSchema) (s : OsSig) : List KReason :=
+  (if bindsOk m a s then [] else [.ruleFails]) ++
+  (if posNamed a s then [] else [.posName]) ++
+  (if requiredOwn a s then [] else [.requiredOwn]) ++
+  (if nodupS (s.map (·.name)) && nodupS ((a.positional ++ a.kwonly).map (·.name)) then [] else [.dupNames])
+
 def bindsOkK (m : Mode) (a : AtenSchema) (s : OsSig) : Bool :=
   bindsOk m a s && posNamed a s && requiredOwn a s &&
   nodupS (s.map (·.name)) && nodupS ((a.positional ++ a.kwonly).map (·.name))
